@@ -240,6 +240,7 @@ PerMsg(c, o, m, L, ev) ==
   \cup (IF valid /\ ev.e = "cb_e" /\ endedOk /\ hooksOk /\ oc # "none" /\ ~PostSaveRaises(c)
            /\ ObservedStages(L) # ExpectedStages(c, oc, oc # "depfail", r.sb = 1, r.se > 0 /\ r.seOk)
         THEN {"C10_Complete"} ELSE {})
+  \cup (IF valid /\ ev.e = "cb_e" /\ ~endedOk /\ hooksOk THEN {"C10_Complete"} ELSE {})
   (* ---------------- C12 ---------------- *)
   \cup (IF \A d \in RangeS(closed) : CntX(L, "dep_close", d) = 1 /\ HasX(L, "dep_open", d)
         THEN {} ELSE {"C12_Once"})
@@ -321,7 +322,7 @@ Global(c, o, ev) ==
 
 RxCheck(c, o, ev) ==
   Global(c, o, ev)
-  \cup (IF ev.e = "loop_crash" THEN {"C01_WorkerCrashed", "C03_WorkerCrashed", "C07_WorkerCrashed"} ELSE {})
+  \cup (IF ev.e = "loop_crash" THEN {"C01_WorkerCrashed", "C03_WorkerCrashed", "C05_WorkerCrashed", "C07_WorkerCrashed"} ELSE {})
   \cup (IF ev.e \in MsgEvents /\ ev.m \in 1..c.M THEN PerMsg(c, o, ev.m, o.lst[ev.m], ev) ELSE {})
   \cup (IF ev.e \in MsgEvents /\ ev.m \notin 1..c.M THEN {"X_UnattributedEvent"} ELSE {})
 =============================================================================
